@@ -332,13 +332,13 @@ def main():
             k_ = rust_str(key)
             if optional:
                 from_ok.append("(match list_get(l, %s@) { Some(s) => x.%s is Some && %s, None => x.%s is None })" % (k_, ident, relf("s", "x.%s->Some_0" % ident), ident))
-                from_err.append("(match list_get(l, %s@) { Some(s) => %s && names_field(e, %s@, %s@), None => false })" % (k_, errf("s"), rust_str(PARSING_FMT), k_))
+                from_err.append("(match list_get(l, %s@) { Some(s) => %s && msg_names(e, %s@), None => false })" % (k_, errf("s"), k_))
                 V = "x.%s->Some_0" % ident
                 W = "y.%s->Some_0" % ident
                 guard = "x.%s is Some" % ident
             else:
                 from_ok.append("(match list_get(l, %s@) { Some(s) => %s, None => false })" % (k_, relf("s", "x.%s" % ident)))
-                from_err.append("(match list_get(l, %s@) { Some(s) => %s && names_field(e, %s@, %s@), None => e == fmt_msg1(%s@, %s@) })" % (k_, errf("s"), rust_str(PARSING_FMT), k_, rust_str(MISSING_FMT), k_))
+                from_err.append("(match list_get(l, %s@) { Some(s) => %s && msg_names(e, %s@), None => msg_names(e, %s@) })" % (k_, errf("s"), k_, k_))
                 V = "x.%s" % ident
                 W = "y.%s" % ident
                 guard = None
